@@ -253,7 +253,20 @@ func (f *FuncCtx) exprMulti(e ast.Expr, env *Env) []Val {
 func (f *FuncCtx) typeAssert(x Val, t types.Type) Val {
 	xs, ts := f.sortOfVal(x), f.S.SortOf(t)
 	fn := "as." + sanitize(ts) + "." + sanitize(xs)
-	f.S.declare(fn, fmt.Sprintf("(declare-fun %s (%s) %s)", fn, xs, ts))
+	if !f.S.declared[fn] {
+		f.S.declare(fn, fmt.Sprintf("(declare-fun %s (%s) %s)", fn, xs, ts))
+		_, ti := t.Underlying().(*types.Interface)
+		var xi bool
+		if x.Typ != nil {
+			_, xi = x.Typ.Underlying().(*types.Interface)
+		}
+		if ti && xi && xs != ts {
+			// asserting to a wider interface and viewing the result at the original interface gives the same value
+			bx := "box." + sanitize(xs) + "." + sanitize(ts)
+			f.S.declare(bx, fmt.Sprintf("(declare-fun %s (%s) %s)", bx, ts, xs))
+			f.S.decls = append(f.S.decls, fmt.Sprintf("(assert (forall ((y!c %s)) (! (= (%s (%s y!c)) y!c) :pattern ((%s y!c)))))", xs, bx, fn, fn))
+		}
+	}
 	return Val{T: fmt.Sprintf("(%s %s)", fn, x.T), Typ: t}
 }
 
